@@ -3,13 +3,19 @@
 DEC_BOUNDS = {"quick": {"digits": 45, "exp_lo": -12, "exp_hi": 12},
               "thorough": {"digits": 60, "exp_lo": -30, "exp_hi": 40}}
 
-STEP_BOUNDS = {"quick": {"list": 1, "iter": 1, "exp_lo": -12, "exp_hi": 12, "digits": 45},
-               "thorough": {"list": 2, "iter": 2, "exp_lo": -30, "exp_hi": 40, "digits": 60}}
+STEP_BOUNDS = {"all": {"round_abstract": 1},
+               "quick": {"list": 1, "iter": 1, "exp_lo": -12, "exp_hi": 12, "digits": 45},
+               "thorough": {"list": 2, "iter": 2, "exp_lo": -20, "exp_hi": 20, "digits": 60}}
+
+HASH_BOUNDS = {"quick": {"hash_lo": 20, "hash_hi": 64, "hash_step": 22},
+               "thorough": {"hash_lo": 20, "hash_hi": 64, "hash_step": 1}}
 
 
 def step_runs():
     return [
         {"module": "ecocredit", "pkg": "./base/keeper", "harness": "Step_.*", "bounds": STEP_BOUNDS},
+        {"module": "ecocredit", "pkg": "./basket/keeper", "harness": "Step_.*", "bounds": STEP_BOUNDS},
+        {"module": "ecocredit", "pkg": "./marketplace/keeper", "harness": "Step_.*", "bounds": STEP_BOUNDS},
     ]
 
 
@@ -19,6 +25,16 @@ PROPS = {
         "runs": [{"module": "types", "pkg": "./math", "harness": "C19_.*", "bounds": DEC_BOUNDS}],
         "all_obligations": True,
         "technique": "go/ssa symbolic execution of types/math over GDA summaries + SMT (z3/z3-new/cvc5)",
+    },
+    "C15": {
+        "title": "IRI <-> content hash bijection",
+        "runs": [{"module": "data", "pkg": ".", "harness": "C15_.*", "bounds": HASH_BOUNDS}],
+        "technique": "go/ssa symbolic execution of ToIRI/ParseIRI/Validate on symbolic bytes + SMT; base58check as an explicit injective encoding",
+    },
+    "C20": {
+        "title": "intertx SubmitTx",
+        "runs": [{"module": "intertx", "pkg": "./keeper", "harness": "C20_.*", "bounds": {}}],
+        "technique": "go/ssa symbolic execution of SubmitTx against recording stubs with symbolic results + SMT",
     },
     "C01": {"title": "credit conservation", "runs": step_runs(), "technique": "one-step inductive invariant, go/ssa symbolic execution + SMT"},
     "C02": {"title": "issuance accounting", "runs": step_runs(), "technique": "one-step inductive invariant, go/ssa symbolic execution + SMT"},
